@@ -338,6 +338,17 @@ pub fn run(tier: Tier, cli: &str) {
                         let o = Command::new(&exe).arg("c16gen").arg("dir").arg(gdir.join("d")).arg(p).args(&dargs).stdout(Stdio::null()).stderr(Stdio::null()).status().unwrap();
                         let got = if o.success() { std::fs::read_to_string(&dest).map(|s| normalise(&s, p)).map_err(|e| e.to_string()) } else { Err("Compile::run failed".into()) };
                         cmp(&mut st, &format!("compile-directory run {run} prefix {:?}", p), got);
+                        if run == 0 {
+                            // the same tree compiled before with another prefix; the grammar file is older than its
+                            // generated neighbour (the usual state of a source tree)
+                            let o1 = Command::new(&exe).arg("c16gen").arg("dir").arg(gdir.join("d")).arg("use std::cmp;").args(&dargs).stdout(Stdio::null()).stderr(Stdio::null()).status().unwrap();
+                            if o1.success() {
+                                let _ = filetime::set_file_mtime(&sub, filetime::FileTime::from_unix_time(1_000_000_000, 0));
+                                let o = Command::new(&exe).arg("c16gen").arg("dir").arg(gdir.join("d")).arg(p).args(&dargs).stdout(Stdio::null()).stderr(Stdio::null()).status().unwrap();
+                                let got = if o.success() { std::fs::read_to_string(&dest).map(|s| normalise(&s, p)).map_err(|e| e.to_string()) } else { Err("Compile::run failed".into()) };
+                                cmp(&mut st, &format!("compile-directory-after-prefix-change prefix {:?}", p), got);
+                            }
+                        }
                     }
                 }
             }
